@@ -570,3 +570,27 @@ def code_rules(chk, repo):
                  c13.REF_UPDATE, key='ThermochemIncomplete.update',
                  what='merging data split over two files commits all fields '
                       'and rebuilds the correlation unconditionally')
+    # basis stored as read (shared with C20)
+    descs = stores.get('descriptors', set())
+    okd = len(descs) == 1 and all(
+        d[0] == 'sub' and d[2] == ('const', 'groups') and d[1][0] == 'sub'
+        and d[1][2] == ('const', 'InvCovMat') and d[1][1][0] == 'attr'
+        and d[1][1][2] == 'UQ' for d in descs)
+    chk.ob('R14.3', okd, LIB, dl, key='basis-as-read',
+           what='the stored uncertainty basis is the file\'s '
+                'InvCovMat.groups, unchanged',
+           found=' | '.join(sym.show(d)[:100] for d in descs))
+    # ---- R14.4 evaluation of every group goes through reviewed code ---------
+    for rel, cname in (('pgradd/ThermoChem/incomplete.py',
+                        'ThermochemIncomplete'),
+                       ('pgradd/ThermoChem/raw_data.py', 'ThermochemRawData'),
+                       ('pgradd/ThermoChem/raw_data.py', 'ConstantSpline'),
+                       ('pgradd/ThermoChem/base.py', 'ThermochemBase')):
+        for s_ in repo.cls(rel, cname).body:
+            if isinstance(s_, ast.FunctionDef):
+                reviewed.check(chk, 'R14.4', repo, rel,
+                               '%s.%s' % (cname, s_.name),
+                               '%s.%s (group evaluation) is unchanged in '
+                               'normal form from its reviewed reference'
+                               % (cname, s_.name))
+
